@@ -8,7 +8,7 @@ from lib import build, cli
 
 LEVEL = "exploration"
 HARNESSES = {"gen_inputs": dict(cfgs=("plain",)), "api_dump": dict(cfgs=("plain",))}
-N_INPUTS = {"quick": 4, "thorough": 60}     # per format
+N_INPUTS = {"quick": 6, "thorough": 60}     # per format
 
 
 def fdiv(a, b):
@@ -42,6 +42,23 @@ def amu_thdm(V, loop):
     if loop > 1:
         r += V["amu2L"]
     return r
+
+
+PROBLEM_EDITS = {"gm2calc": [("GM2CalcInput", "26", "3000000"), ("GM2CalcInput", "25", "-3000000"), ("GM2CalcInput", "4", "1e6")],
+                 "slha": [("AE", "3", "3   3000000"), ("HMIX", "1", "1e6")]}
+
+
+def set_line(text, block, key, value):
+    out, cur, done = [], None, False
+    for l in text.split("\n"):
+        t = l.split("#")[0].split()
+        if t and t[0].lower() == "block":
+            cur = t[1].upper() if len(t) > 1 else ""
+        elif cur == block.upper() and t and t[0] == key and not done:
+            l = "   " + key + "   " + value
+            done = True
+        out.append(l)
+    return "\n".join(out) if done else None
 
 
 def detailed_mssm(V, S):
@@ -168,6 +185,16 @@ def run(chk):
             texts = cli.gen_inputs(chk, fmt, n, chk.seed, os.path.join(chk.workdir, "in_" + fmt))
             for idx, text in enumerate(texts):
                 base = os.path.join(chk.workdir, "in_" + fmt, "%s_%d.in" % (fmt, idx))
+                if idx % 6 == 5 and fmt in PROBLEM_EDITS:
+                    # a point with a flagged problem (tachyon through left-right mixing): with force-output the program reports numbers, which must be the library's
+                    blk, key, val = PROBLEM_EDITS[fmt][(idx // 6) % len(PROBLEM_EDITS[fmt])]
+                    edited = set_line(text, blk, key, val)
+                    if edited is not None:
+                        text = edited
+                        open(base, "w").write(text)
+                        chk.add_count("inputs edited into problem points (%s)" % fmt)
+                if idx % 6 == 4 and fmt == "gm2calc":
+                    chk.add_count("inputs on which only the evaluation without tan(beta) resummation fails (gm2calc)")
                 api = cli.api_dump(dump, fmt, base)
                 if idx % 2 == 1:
                     # a spectrum-generator file that already carries the blocks the result is written to, with other entries: they belong to the input and must be echoed
@@ -242,15 +269,19 @@ def judge(chk, fmt, c, t, r, api, cfgname):
         fail(chk, "C15:abnormal-termination", "exit=%s signal=%s timeout=%s" % (r["exit"], r["signal"], r["timeout"]), fmt, c, t, r)
         return
     chk.conclusive += 1
-    exp_exit = 1 if (fmt != "thdm" and S["have_problem"]) else 0
+    mssm = fmt != "thdm"
+    # a valid point whose spectrum without tan(beta) resummation is refused (tachyon with the tree-level Yukawa coupling): the request fails exactly when the
+    # requested number is the non-resummed a_mu (minimal output of a_mu, and the SLHA-type outputs, at loop order >= 1); the detailed report has a fallback
+    nonres_rejected = mssm and not rs and ("amu1L_non_tb_resummed_asis" not in V)
+    nonres_needed = nonres_rejected and l > 0 and ((o == 0 and not un) or o in (2, 3, 4))
+    exp_exit = 1 if (fmt != "thdm" and (S["have_problem"] or nonres_needed)) else 0
     chk.add_cell(cellbase + "|exit-status", 1, 0 if r["exit"] == exp_exit else 1)
     if r["exit"] != exp_exit:
         fail(chk, "C15:exit-status", "exit status %s, expected %s" % (r["exit"], exp_exit), fmt, c, t, r)
-    mssm = fmt != "thdm"
-    if mssm and not rs and ("amu1L_non_tb_resummed_asis" not in V):
-        chk.add_count("non-resummed-spectrum-rejected")   # the writer itself throws: belongs to C16
+    if nonres_needed:
+        chk.add_count("non-resummed-spectrum-rejected")   # the writer itself throws: refusal judged by C16
         return
-    value = (V["unc%d" % l] if un else (amu_of(V, l, rs) if mssm else amu_thdm(V, l)))
+    value = None if (nonres_rejected and o == 1) else (V["unc%d" % l] if un else (amu_of(V, l, rs) if mssm else amu_thdm(V, l)))   # (the detailed report does not print it)
     if o == 0:
         exp = cli.f_min(value) + "\n"
         ok = r["stdout"] == exp
